@@ -378,8 +378,9 @@ async fn run_case(c: &Case, root: &std::path::Path, stmts: &mut Vec<String>) -> 
     files.sort();
     // read back in a fresh session with the written schema
     let mut rcfg = SessionConfig::new().with_target_partitions(1 + (c.idx as usize % 3)).with_information_schema(false);
-    if c.fmt == Fmt::Arrow || c.idx % 3 == 0 {
-        // the written string type is Utf8; Arrow IPC files are not adapted to a declared Utf8View
+    // Arrow IPC files are not adapted to a declared string type: COPY / DataFrame write the MemTable's
+    // Utf8, INSERT writes the listing table's declared type (VARCHAR = Utf8View by default)
+    if (c.fmt == Fmt::Arrow && c.writer != Writer::Insert) || (c.fmt != Fmt::Arrow && c.idx % 3 == 0) {
         rcfg = rcfg.set_str("datafusion.sql_parser.map_string_types_to_utf8view", "false");
         stmts.push("-- fresh session: datafusion.sql_parser.map_string_types_to_utf8view=false".into());
     }
